@@ -95,4 +95,14 @@ proof!(c14_validate, scen::c14::VAL_LEN, scen::c14::validate, 10);
 proof!(c14_verify_2, scen::c14::ver_len(2), scen::c14::verify::<2>, 6);
 proof!(c14_verify_4, scen::c14::ver_len(4), scen::c14::verify::<4>, 8);
 proof!(c14_verify_6, scen::c14::ver_len(6), scen::c14::verify::<6>, 10);
-proof!(c10_generate_3_small, scen::c10::GEN_LEN, scen::c10::generate::<3, 3>, 40);
+proof!(c10_generate_3_small, scen::c10::GEN_LEN, scen::c10::generate::<3, 3>, 8);
+proof!(c07_last_len_0, scen::c07::len(0), scen::c07::last_len::<0>, 10);
+proof!(c07_last_len_1, scen::c07::len(1), scen::c07::last_len::<1>, 10);
+proof!(c07_last_len_2, scen::c07::len(2), scen::c07::last_len::<2>, 10);
+proof!(c07_last_len_3, scen::c07::len(3), scen::c07::last_len::<3>, 10);
+proof!(c07_last_len_4, scen::c07::len(4), scen::c07::last_len::<4>, 10);
+proof!(c07_last_len_5, scen::c07::len(5), scen::c07::last_len::<5>, 10);
+proof!(c15_memprod_1_1, scen::c15::len(1, 1), scen::c15::memory_product::<1, 1>, 8);
+proof!(c15_memprod_2_2, scen::c15::len(2, 2), scen::c15::memory_product::<2, 2>, 8);
+proof!(c15_memprod_0_1, scen::c15::len(0, 1), scen::c15::memory_product::<0, 1>, 8);
+proof!(c15_memprod_2_0, scen::c15::len(2, 0), scen::c15::memory_product::<2, 0>, 8);
